@@ -66,6 +66,9 @@ func (g Goodbye) Marshal() ([]byte, error) {
 
 // Unmarshal decodes the Goodbye packet from binary
 func (g *Goodbye) Unmarshal(rawPacket []byte) error {
+	// Clear any existing reason
+	g.Reason = ""
+
 	/*
 	 *        0                   1                   2                   3
 	 *        0 1 2 3 4 5 6 7 8 9 0 1 2 3 4 5 6 7 8 9 0 1 2 3 4 5 6 7 8 9 0 1
